@@ -339,10 +339,8 @@ func c13Goodbye(c *Ctx) {
 	start := stripConv(item.fields["Offset"])
 	for _, l := range []ssa.Value{start} {
 		if ld, ok := l.(*ssa.UnOp); ok && isCounterLoad(ld) {
-			for _, e := range calls(fn, named("(*desync.FormatEncoder).Encode", "(desync.FormatEncoder).Encode")) {
-				if hasOriginDeep(e.Common().Args[len(e.Common().Args)-1], "") {
-				}
-				if typeName(encodedType(e)) == "desync.FormatFilename" && instrDominates(ld, e.(ssa.Instruction)) {
+			for _, e := range encodeSites(fn) {
+				if typeName(e.typ) == "desync.FormatFilename" && instrDominates(ld, e.at) {
 					startOK = true
 				}
 			}
@@ -541,8 +539,10 @@ func isCounterLoad(v ssa.Value) bool {
 		}
 		return false
 	}
-	al, ok := u.X.(*ssa.Alloc)
-	return ok && al.Comment != "" && al.Comment == counterName(al.Parent())
+	if al, ok := u.X.(*ssa.Alloc); ok {
+		return al.Comment != "" && al.Comment == counterName(al.Parent())
+	}
+	return counterCellOf(u.X) != nil
 }
 
 // encodedType returns the static type of the element passed to Encode.
@@ -553,6 +553,74 @@ func encodedType(call ssa.CallInstruction) types.Type {
 		return mi.X.Type()
 	}
 	return v.Type()
+}
+
+// encodedTypeAt is encodedType on a path of the explorer: an element that reaches Encode through
+// the parameter of an inlined wrapper ("emit(x)") is traced back to the value the caller passed.
+func encodedTypeAt(st *State, call ssa.CallInstruction) types.Type {
+	a := call.Common().Args
+	v := a[len(a)-1]
+	for d := 0; d < 8; d++ {
+		if mi, ok := v.(*ssa.MakeInterface); ok {
+			return mi.X.Type()
+		}
+		if w, ok := st.Args[v]; ok {
+			v = w
+			continue
+		}
+		break
+	}
+	return v.Type()
+}
+
+// encodeSite is one element written from tar(): where it happens in tar() and the element type.
+type encodeSite struct {
+	at  ssa.Instruction
+	typ types.Type
+}
+
+// encodeSites lists the Encode calls of fn, including those made through a new wrapper (a helper
+// or local closure that passes its parameter on to Encode), attributed to the wrapper's call.
+func encodeSites(fn *ssa.Function) []encodeSite {
+	var out []encodeSite
+	isEnc := func(n string) bool { return strings.HasSuffix(n, "FormatEncoder).Encode") }
+	for _, g := range withClosures(fn) {
+		if newHelpers[g] {
+			continue
+		}
+		for _, b := range g.Blocks {
+			for _, ins := range b.Instrs {
+				call, ok := ins.(*ssa.Call)
+				if !ok {
+					continue
+				}
+				if isEnc(callee(call)) {
+					out = append(out, encodeSite{call, encodedType(call)})
+					continue
+				}
+				h := directCallee(call)
+				if h == nil || !newHelpers[h] {
+					continue
+				}
+				for _, inner := range calls(h, isEnc) {
+					ia := inner.Common().Args
+					if p, ok := ia[len(ia)-1].(*ssa.Parameter); ok {
+						for k, q := range h.Params {
+							if q == p && k < len(call.Call.Args) {
+								v := call.Call.Args[k]
+								t := v.Type()
+								if mi, ok := v.(*ssa.MakeInterface); ok {
+									t = mi.X.Type()
+								}
+								out = append(out, encodeSite{call, t})
+							}
+						}
+					}
+				}
+			}
+		}
+	}
+	return out
 }
 
 func c13ByteCounter(c *Ctx) {
@@ -590,8 +658,7 @@ func c13ByteCounter(c *Ctx) {
 		if !ok {
 			return false
 		}
-		al, ok := st.Addr.(*ssa.Alloc)
-		if !ok || !isCounterCell(al) {
+		if counterCellOf(st.Addr) == nil {
 			return false
 		}
 		bo, ok := st.Val.(*ssa.BinOp)
@@ -701,8 +768,13 @@ func c13ByteCounter(c *Ctx) {
 			}
 		}
 	}
-	if n < 8 {
-		c.bad("tar:counted-calls", fn.Pos(), "expected at least 8 encoded elements in tar(), found %d", n)
+	// elements written through a counting wrapper ("emit(x)": Encode + add inside the wrapper) are
+	// covered by the wrapper's own check above; count them as well
+	if sites := len(encodeSites(fn)); sites > n {
+		n = sites
+	}
+	if n < 6 {
+		c.bad("tar:counted-calls", fn.Pos(), "expected at least 6 encoded elements in tar(), found %d", n)
 	}
 }
 
@@ -726,7 +798,7 @@ func c13Grammar(c *Ctx) {
 		n := callee(call)
 		switch {
 		case strings.HasSuffix(n, "FormatEncoder).Encode"):
-			st.Emit("el", strings.TrimPrefix(typeName(encodedType(call)), "desync.Format"), call)
+			st.Emit("el", strings.TrimPrefix(typeName(encodedTypeAt(st, call)), "desync.Format"), call)
 			return []map[int]Val{{1: {N: NNil, Class: ClsNil}}}
 		case n == "desync.tar":
 			st.Emit("el", "Child", call)
@@ -775,6 +847,24 @@ func c13Grammar(c *Ctx) {
 }
 
 func strconvUnquote(s string) (string, error) { return strconv.Unquote(s) }
+
+// counterCellOf resolves the address of a store/load to the counter cell it denotes: the cell
+// itself or, inside a closure that captured it, the captured cell.
+func counterCellOf(addr ssa.Value) *ssa.Alloc {
+	switch a := addr.(type) {
+	case *ssa.Alloc:
+		if isCounterCell(a) {
+			return a
+		}
+	case *ssa.FreeVar:
+		for _, cell := range captured(a) {
+			if al, ok := cell.(*ssa.Alloc); ok && isCounterCell(al) {
+				return al
+			}
+		}
+	}
+	return nil
+}
 
 // isCounterCell: the cell of tar's first named result (the byte counter).
 func isCounterCell(al *ssa.Alloc) bool {
